@@ -29,25 +29,47 @@ pub fn check(f: &Facts, stats: &mut Stats) -> CheckResult {
     }
     // (the Builder API ignores flags; with own v3 bytes they are present)
     let m = Model::new(f);
-    let up: Vec<_> = m.ids.iter().map(|i| m.up_dist(*i)).collect();
+    let huge = m.len() > 5000;
+    let up: Vec<_> = if huge { Vec::new() } else { m.ids.iter().map(|i| m.up_dist(*i)).collect() };
     let mut shortcut = false;
     let mut tie = false;
     let mut unreachable = false;
-    // large graphs (the deep-chain sweep): a stride of the ordered pairs plus every pair that involves
-    // one of the three smallest / largest ids (the library's search is quadratic in the depth per pair)
+    // large graphs (the sweeps): a stride of the ordered pairs plus every pair that involves one of the
+    // three smallest / largest ids (the library's search is quadratic in the depth per pair); for
+    // more than 5000 terms a fixed number of sampled pairs
     let big = m.len() > 150;
     let n_ids = m.len();
-    for (ia, a) in m.ids.iter().enumerate() {
+    let sampled: Vec<(usize, usize)> = if huge {
+        (0..1500usize)
+            .flat_map(|i| {
+                let a = (i * 7919 + 3) % n_ids;
+                [(a, (a * 31 + i * 104_729 + 1) % n_ids), (a, a / 2), (a / 3, a), (a, a)]
+            })
+            .collect()
+    } else {
+        Vec::new()
+    };
+    let all_pairs: Box<dyn Iterator<Item = (usize, usize)>> = if huge { Box::new(sampled.into_iter()) } else { Box::new((0..n_ids).flat_map(move |a| (0..n_ids).map(move |b| (a, b)))) };
+    for (ia, ib) in all_pairs {
+        let (a, b) = (&m.ids[ia], &m.ids[ib]);
         let ta = ont.hpo(*a).unwrap();
-        for (ib, b) in m.ids.iter().enumerate() {
-            if big && (ia * 31 + ib * 17) % 97 != 0 && !(ia < 3 || ib < 3 || ia + 3 >= n_ids || ib + 3 >= n_ids) {
+        {
+            if !huge && big && (ia * 31 + ib * 17) % 97 != 0 && !(ia < 3 || ib < 3 || ia + 3 >= n_ids || ib + 3 >= n_ids) {
                 continue;
             }
+            let (tmp_a, tmp_b);
+            let (up_a, up_b) = if huge {
+                tmp_a = m.up_dist(*a);
+                tmp_b = m.up_dist(*b);
+                (&tmp_a, &tmp_b)
+            } else {
+                (&up[ia], &up[ib])
+            };
             let tb = ont.hpo(*b).unwrap();
             stats.eval(1);
             let r = guarded(|| -> CheckResult {
                 // ---- ancestor distance / path
-                let u = up[ia].get(b).copied();
+                let u = up_a.get(b).copied();
                 let d = ta.distance_to_ancestor(&tb);
                 ensure!(d == u, "distance_to_ancestor", "{a}.distance_to_ancestor({b}) = {d:?}, shortest parent chain has {u:?} links");
                 let p = ta.path_to_ancestor(&tb).map(|v| v.iter().map(|x| x.as_u32()).collect::<Vec<u32>>());
@@ -65,7 +87,7 @@ pub fn check(f: &Facts, stats: &mut Stats) -> CheckResult {
                     _ => return fail("path_to_ancestor/presence", format!("{a}.path_to_ancestor({b}) = {p:?} but ancestor distance is {u:?}")),
                 }
                 // ---- term distance
-                let exp = up[ia].iter().filter_map(|(c, x)| up[ib].get(c).map(|y| x + y)).min();
+                let exp = up_a.iter().filter_map(|(c, x)| up_b.get(c).map(|y| x + y)).min();
                 let d = ta.distance_to_term(&tb);
                 ensure!(d == exp, "distance_to_term", "{a}.distance_to_term({b}) = {d:?}, minimum over common ancestors is {exp:?}");
                 let d2 = tb.distance_to_term(&ta);
@@ -92,7 +114,7 @@ pub fn check(f: &Facts, stats: &mut Stats) -> CheckResult {
                                 prev = *x;
                             }
                             ensure!(prev == *b, "path_to_term/end", "{a}.path_to_term({b}) = {path:?} does not end in {b}");
-                            let class = if up[ia].contains_key(b) || up[ib].contains_key(a) { "ancestor-pair" } else { "general" };
+                            let class = if up_a.contains_key(b) || up_b.contains_key(a) { "ancestor-pair" } else { "general" };
                             ensure!(path.len() == dist, format!("path_to_term/length/{class}"), "{a}.path_to_term({b}) = {path:?} has {} steps but distance_to_term is {dist}", path.len());
                         }
                         _ => return fail("path_to_term/presence", format!("{a}.path_to_term({b}) = {p:?} but distance is {exp:?}")),
@@ -105,14 +127,14 @@ pub fn check(f: &Facts, stats: &mut Stats) -> CheckResult {
                 Err(p) => return fail("paths/panic", format!("path/distance query on ({a},{b}) panicked: {p}")),
             }
             // classification
-            let exp = up[ia].iter().filter_map(|(c, x)| up[ib].get(c).map(|y| x + y)).min();
-            if let (Some(u), Some(d)) = (up[ia].get(b), exp) {
+            let exp = up_a.iter().filter_map(|(c, x)| up_b.get(c).map(|y| x + y)).min();
+            if let (Some(u), Some(d)) = (up_a.get(b), exp) {
                 if *u > d {
                     shortcut = true;
                 }
             }
             if let Some(d) = exp {
-                let n = up[ia].iter().filter(|(c, x)| up[ib].get(*c).is_some_and(|y| **x + *y == d)).count();
+                let n = up_a.iter().filter(|(c, x)| up_b.get(*c).is_some_and(|y| **x + *y == d)).count();
                 if n > 1 && a != b {
                     tie = true;
                 }
@@ -212,12 +234,22 @@ impl Property for C11 {
         }
     }
     fn required_labels(&self, _tier: Tier) -> Vec<&'static str> {
-        vec!["nontrivial", "obsolete-terms", "shorter-route-over-higher-ancestor", "tie", "no-common-ancestor", "diamond", "depth>255", "annotated-with-all-kinds", "ancestors>30"]
+        vec!["nontrivial", "obsolete-terms", "shorter-route-over-higher-ancestor", "tie", "no-common-ancestor", "diamond", "depth>255", "annotated-with-all-kinds", "ancestors>30", "bulk>65535-terms"]
     }
     fn run_generated(&self, tier: Tier, seed: u64, n: u64, stats: &mut Stats) -> Option<(Value, Failure)> {
         run_typed(strategy(tier), seed, n, stats, check)
     }
     fn replay(&self, case: &Value, stats: &mut Stats) -> Result<CheckResult, String> {
+        if let Some(b) = case.get("bulk") {
+            // more than 65 535 terms (see `bulk_facts`), a fixed number of sampled pairs
+            let v: (u32, u32) = serde_json::from_value(b.clone()).map_err(|e| e.to_string())?;
+            stats.cases += 1;
+            let r = check(&super::common::bulk_facts(v.0, v.1, 0), stats);
+            if r.is_ok() {
+                stats.label("bulk>65535-terms");
+            }
+            return Ok(r);
+        }
         if let Some(b) = case.get("deep") {
             // a plain is_a chain deeper than 255 links with side leaves (distances up to `depth`)
             let v: (u32, u32) = serde_json::from_value(b.clone()).map_err(|e| e.to_string())?;
@@ -232,7 +264,7 @@ impl Property for C11 {
     }
     fn isolated_plans(&self, tier: Tier, seed: u64) -> Vec<Value> {
         let _ = seed;
-        let mut out = vec![json!({"deep": (270u32, 7919u32)}), json!({"deep": (262u32, 104_729u32)})];
+        let mut out = vec![json!({"deep": (270u32, 7919u32)}), json!({"deep": (262u32, 104_729u32)}), json!({"bulk": (65_700u32, 7919u32)})];
         if tier == Tier::Thorough {
             out.push(json!({"deep": (600u32, 1_299_709u32)}));
         }
